@@ -1,11 +1,15 @@
-from vv.core import harness
-from vv.registry import PROPS, COMMON_ASSUME, rc
+from vv.core import harness, fuzz_target, REPO
+from vv.registry import PROPS, COMMON_ASSUME, rc, fz
 
 harness("h_c11", ["harness/h_c11.cc"], libs=("tools",))
+fuzz_target("fz_c11_xml", ["fuzz/fz_c11_xml.cc"] + [f"{REPO}/tools/src/libtools/{f}.cc" for f in
+                                                     ("property", "propertyiomanipulator", "tokenizer", "colors")])
 
 PROPS["C11"] = dict(
     parts=[rc("h_c11", quick=dict(cases=24000, procs=8, budget_s=600),
-              thorough=dict(cases=1600000, procs=16, budget_s=1500))],
+              thorough=dict(cases=1600000, procs=16, budget_s=1500)),
+           fz("fz_c11_xml", quick=dict(runs=600000, procs=2, max_len=160, budget_s=300),
+              thorough=dict(runs=16000000, procs=8, max_len=256, budget_s=900), dict="corpus/fz_c11_xml/xml.dict")],
     rule=("options: every calculator description found at run time in /repo/xtp/share/xtp/xml (links into subpackages/ resolved by the harness' own "
           "reader) and in tools/src/tests/DataFiles/optionshandler; user tree = random subset (inclusion 0/5/15/40/80 %) of the declared nodes plus "
           "everything the description makes mandatory, valid values per declared choice type (bool/int/int+/float/float+/enumeration/bracketed "
@@ -18,7 +22,9 @@ PROPS["C11"] = dict(
           "newlines) printed with PropertyIOManipulator(XML, level 0 on the top node | level 1 on an unnamed root), loaded with LoadFromXML, compared "
           "(names, order, attribute maps, trimmed values); non-trivial = some value/attribute contains a metacharacter. "
           "astype: as<bool|Index|double|string|vector<double>|vector<Index>|Vector3d|VectorXd> on generated literals vs a three-way reference "
-          "(accept with value / reject / unclear); non-trivial = literal is not the canonical spelling (bool: neither 'true' nor 'false')."),
+          "(accept with value / reject / unclear); non-trivial = literal is not the canonical spelling (bool: neither 'true' nor 'false'). "
+          "fz_c11_xml: libFuzzer bytes -> LoadFromXML; accepted documents (comments, CDATA, entities, mixed content, any encoding expat takes) "
+          "must survive print -> load with equal names/order/attributes/trimmed values; non-trivial = some loaded value/attribute has a metacharacter."),
     assumptions=COMMON_ASSUME + [
         "descriptions are parsed with VOTCA's expat loader (Property::LoadFromXML) and converted to the harness' own tree; link resolution, merge rules and validation are re-implemented from the property statement",
         "list sections: one resolved element per user element; a list the user does not mention keeps its template elements with their defaults (like any other declared node)",
